@@ -206,4 +206,16 @@ MUTANTS = [
     {"prop": "C18", "name": "deepcopy-shares-unit-table", "file": PR,
      "old": "        new.__dict__ = copy.deepcopy(self.__dict__, memo)\n        new._init_dynamic_classes()\n",
      "new": "        new.__dict__ = copy.deepcopy(self.__dict__, memo)\n        new._units = self._units\n        new._init_dynamic_classes()\n"},
+    # ------------------------------------------------------------------ reversals of later fixes
+    {"prop": "C18", "name": "unit-ordering-skips-registry-check", "file": "pint/facets/plain/unit.py",
+     "old": "            # raises ValueError for a unit of another registry\n            self._check(other)\n", "new": ""},
+    {"prop": "C13", "name": "base-units-memo-not-purged-on-define", "file": PR,
+     "old": "                if memo:\n                    for units in [units for units in memo if mentions(units)]:\n                        del memo[units]\n",
+     "new": "                pass\n"},
+    {"prop": "C13", "name": "spelled-memos-not-purged-on-define", "file": PR,
+     "old": "                for memo in (cache.dimensionality, cache.root_units):\n                    for units in [units for units in memo if mentions(units)]:\n                        del memo[units]\n",
+     "new": ""},
+    {"prop": "C12", "name": "rollback-dies-on-unhashable-key", "file": CR,
+     "old": "            try:\n                key = self._active_ctx.hashable()\n            except TypeError:\n                # the failure may be just that: an unhashable parameter value\n                pass\n            else:\n                self._caches.pop(key, None)\n                self._context_units.pop(key, None)\n",
+     "new": "            key = self._active_ctx.hashable()\n            self._caches.pop(key, None)\n            self._context_units.pop(key, None)\n"},
 ]
